@@ -8,7 +8,7 @@
 mod proggen;
 use proggen::*;
 use qv::{Args, Rng, Run};
-use quil_rs::instruction::{DefaultHandler, Instruction, MemoryReference, Target};
+use quil_rs::instruction::{DefaultHandler, FrameIdentifier, Instruction, InstructionHandler, MemoryReference, Qubit, Reset, Target};
 use quil_rs::program::Program;
 
 #[derive(Clone, Debug)]
@@ -66,7 +66,6 @@ fn desc_op(u: &mut U, o: &Op) -> String {
 // ---- the known classes, computed on the abstract pre-state (mirrors `hits` of Model/Program.v)
 
 const K_RESET: u64 = 1;
-const K_STALE: u64 = 2;
 const K_FRAME: u64 = 3;
 const K_CIRC: u64 = 4;
 
@@ -124,18 +123,11 @@ impl AState {
     fn cleared(&self) -> AState {
         AState { defs: self.defs.clone(), body: Vec::new() }
     }
+    /// (the stale-cache class was repaired by 1fc8c68: only uncounted definitions hit)
     fn hits_adds(&mut self, u: &mut U, is: &[AI], out: &mut Vec<u64>) {
         for a in is {
             if let Some(c) = uncounted(u, a) {
                 out.push(c);
-            }
-            if let Some((kd, k)) = a.route() {
-                if let Some((_, old)) = self.defs[kd as usize].iter().find(|(k2, _)| *k2 == k) {
-                    let (go, gn) = (gq(u, &old.clone()), gq(u, a));
-                    if !subset(&go, &gn) {
-                        out.push(K_STALE);
-                    }
-                }
             }
             self.add(a);
         }
@@ -153,19 +145,7 @@ fn hits(u: &mut U, st: &AState, o: &Op) -> Vec<u64> {
     match o {
         Op::Add(i) => st.clone().hits_adds(u, std::slice::from_ref(i), &mut out),
         Op::AddMany(l) => st.clone().hits_adds(u, l, &mut out),
-        Op::Concat(l) => {
-            let mut q = AState { defs: vec![Vec::new(); 8], body: Vec::new() };
-            q.hits_adds(u, l, &mut out);
-            for kd in 0..8 {
-                for (k, v) in q.defs[kd].iter() {
-                    if let Some((_, old)) = st.defs[kd].iter().find(|(k2, _)| k2 == k) {
-                        if !subset(&gq(u, old), &gq(u, v)) {
-                            out.push(K_STALE);
-                        }
-                    }
-                }
-            }
-        }
+        Op::Concat(l) => st.clone().hits_adds(u, l, &mut out),
         Op::ConcatSelf | Op::Resolve | Op::RoundTrip | Op::RoundTripInto => {}
         Op::CloneWithoutBody => st.reset_hit(u, &mut out),
         Op::ExpandCal(o2) => {
@@ -182,7 +162,7 @@ fn hits(u: &mut U, st: &AState, o: &Op) -> Vec<u64> {
         Op::Simplify(_, _, _, o2) => {
             let mut c = st.cleared();
             c.hits_adds(u, o2, &mut out);
-            if o2.iter().any(|i| !i.is_body() && !gq(u, i).is_empty()) {
+            if o2.iter().any(|i| matches!(i, AI::Calib { .. } | AI::MeasureCalib { .. })) {
                 out.push(K_RESET);
             }
         }
@@ -203,7 +183,6 @@ fn hits(u: &mut U, st: &AState, o: &Op) -> Vec<u64> {
 fn class_name(c: u64) -> &'static str {
     match c {
         K_RESET => "clone-without-body-cache",
-        K_STALE => "redefinition-stale-qubits",
         K_FRAME => "framedef-qubits-uncounted",
         _ => "circuitdef-qubits-uncounted",
     }
@@ -371,6 +350,37 @@ fn apply_one(u: &mut U, h: &Hist, op: Op, q: Program) -> Hist {
     Hist { ops, prog: q, hits: hits2 }
 }
 
+/// `DefaultHandler::matching_frames` for a bare `RESET` (the observable that depends on the cache):
+/// (used, blocked) frame keys, sorted
+fn reset_frames(p: &Program) -> (Vec<u64>, Vec<u64>) {
+    fn key(f: &FrameIdentifier) -> u64 {
+        let qs: Vec<String> = f
+            .qubits
+            .iter()
+            .map(|q| match q {
+                Qubit::Fixed(n) => n.to_string(),
+                other => format!("{other:?}"),
+            })
+            .collect();
+        let qs = qs.join(" ");
+        FRAME_KEYS
+            .iter()
+            .position(|(q, n)| *q == qs && *n == f.name)
+            .map(|i| i as u64)
+            .unwrap_or(999)
+    }
+    match DefaultHandler.matching_frames(p, &Instruction::Reset(Reset { qubit: None })) {
+        Some(m) => {
+            let mut us: Vec<u64> = m.used.iter().map(|f| key(f)).collect();
+            let mut bl: Vec<u64> = m.blocked.iter().map(|f| key(f)).collect();
+            us.sort();
+            bl.sort();
+            (us, bl)
+        }
+        None => (vec![998], vec![998]),
+    }
+}
+
 fn emit_pair(run: &mut Run, u: &mut U, a: &Hist, b: &Hist, kind: &str, mutant: u32) {
     let mut oa = u.obs(&a.prog);
     let mut ob = u.obs(&b.prog);
@@ -411,13 +421,28 @@ fn emit_pair(run: &mut Run, u: &mut U, a: &Hist, b: &Hist, kind: &str, mutant: u
     let da: Vec<String> = a.ops.iter().map(|o| desc_op(u, o)).collect();
     let db: Vec<String> = b.ops.iter().map(|o| desc_op(u, o)).collect();
     let desc = format!("[{kind}] H1: {} || H2: {}", da.join(" ; "), db.join(" ; "));
+    let mut ra = reset_frames(&a.prog);
+    let rb = reset_frames(&b.prog);
+    if mutant == 4 {
+        // RESET frame matching computed from a stale copy of the cache: reports no frame at all
+        if !ra.0.is_empty() || !ra.1.is_empty() {
+            ra = (vec![], vec![]);
+        }
+    }
+    if !ra.0.is_empty() || !ra.1.is_empty() {
+        run.count("reset-matches-some-frame");
+    }
     let body = format!(
-        "{cls}, [{}], [{}], {}, {}, {}",
+        "{cls}, [{}], [{}], {}, {}, {}, ({}, {}), ({}, {})",
         ha.join("; "),
         hb.join("; "),
         u.coq_obs(&oa),
         u.coq_obs(&ob),
-        coq_bool(e)
+        coq_bool(e),
+        coq_ns(&ra.0),
+        coq_ns(&ra.1),
+        coq_ns(&rb.0),
+        coq_ns(&rb.1)
     );
     let nontrivial = !oa.1.is_empty() && a.ops.len() >= 3;
     run.count(&format!("pair-{kind}"));
@@ -440,7 +465,8 @@ fn main() {
     let mut rng = Rng::new(args.seed);
     let mut nops = [0u64; 12];
 
-    // the witnesses of the four known findings, replayed on the implementation
+    // the witnesses of the known findings (and of the repaired stale-cache defect, now a
+    // regression case in no class), replayed on the implementation
     {
         let wit: Vec<(&str, Vec<AI>, bool)> = vec![
             ("clone", vec![AI::Calib { sig: 0, payload: 0 }, AI::Body { k: 0, qs: vec![1] }], true),
